@@ -828,7 +828,7 @@ def loop_specs(tier, seed):
 
 
 # --------------------------------------------------------------------------- orchestration
-BUDGET = {'quick': 240, 'thorough': 2400}
+BUDGET = {'quick': 330, 'thorough': 2400}
 
 
 def cache_path(tier, seed):
@@ -855,7 +855,7 @@ def run(tier, seed):
             units.append((i, u))
     random.Random(seed).shuffle(units)
     budget = BUDGET[tier]
-    per_unit = max(20.0, budget * NCPU / max(1, len(units)) * 3)
+    per_unit = max(30.0, budget * NCPU / max(1, len(units)) * 6)
     pool = mp.Pool(NCPU, initializer=_w_init, initargs=(None, spec_map))
     tot = {i: {} for i in spec_map}
     viols = {i: [] for i in spec_map}
